@@ -54,7 +54,7 @@ def ceil_div(a, b): return -(-a // b)
 def gen_ops(rng, tier, ctx=None):
     T, fft_tab, mm_tab = thresholds(ctx)
     quick = tier != "thorough"
-    total = 3_200_000 if quick else 40_000_000
+    total = 3_200_000 if quick else 12_000_000
     budget = [0]
     def section(frac):
         """each section of the generator gets its own share of the limb budget (unused share is carried over)"""
@@ -225,7 +225,7 @@ def gen_ops(rng, tier, ctx=None):
         n, bits1 = capacity(depth, w)
         return bits1 >= 1 and ((n1 * 64 - 1) // bits1 + 1) + ((n2 * 64 - 1) // bits1 + 1) - 1 <= 4 * n
     def fft_cases(mfa):
-        lim = 20_000 if quick else 400_000
+        lim = 20_000 if quick else 60_000       # per-op cap: the Lean driver parses a line into a character list
         dmax = 12 if quick else 14
         for depth in range(6 if mfa else 2, dmax + 1):
             wadj = (1 << (6 - depth)) if depth < 6 else 1
